@@ -178,6 +178,16 @@ def work_items(tier, flt):
     for env, B, flag in big:
         if envs.select_envs([env], flt):
             items.append({"env": env, "entry": SHORT_ENTRY[env], "flag": flag, "B": B, "n": 2, "cost": 6})
+    # configurations whose states have size-1 dimensions besides the batch (one agent, one food, one shelf column):
+    # per-index slicing and rendering must not confuse them with the batch dimension
+    ones = [("Cleaner", "r3c7a1t7", 2, True), ("LevelBasedForaging", "g5a1f1v5l2nVNp0t7", 1, False)]
+    if tier != "quick":
+        ones += [("RobotWarehouse", "s1x3h2a1r1q1t7", 2, True), ("Connector", "g4a1t3uni", 3, False),
+                 ("Cleaner", "r3c7a1t7", 1, False), ("LevelBasedForaging", "g5a1f1v5l2nVNp0t7", 3, True)]
+    for env, entry, B, flag in ones:
+        if envs.select_envs([env], flt) and not (flt and flt.get("entry")):
+            items.append({"env": env, "entry": entry, "flag": flag, "B": B,
+                          "n": max(2, int((4 if tier == "quick" else 15) * scale)), "cost": 2})
     # the batched wrappers over another Wrapper (harness-side Wrapper subclasses, jumanji's MultiToSingleWrapper)
     stacks = [("Snake", 3, False, "tag"), ("Knapsack", 2, True, "zeromid")]
     if tier != "quick":
